@@ -127,6 +127,11 @@ class MGView(FnView):
             return self.obj(n["a"][0], depth + 1)
         if k == "Un" and n.get("op") in ("*", "&"):
             return self.obj(n["e"], depth + 1)
+        if k in ("Construct", "TempObj") and len(n.get("a", [])) == 1:
+            # copy / move construction of a handle (shared_ptr passed or stored by value) denotes the same object
+            return self.obj(n["a"][0], depth + 1)
+        if k == "Call" and n.get("callee", "").endswith("std::move") and len(n.get("a", [])) == 1:
+            return self.obj(n["a"][0], depth + 1)
         return None
 
     def mentions_level_obj(self, n):
